@@ -114,7 +114,7 @@ impl Pattern {
                 let is_unbounded = repetition.max.is_none();
                 let is_greedy = repetition.greedy;
 
-                is_dot && is_unbounded && is_greedy
+                (is_dot && is_unbounded && is_greedy) || Self::has_greedy_all(&repetition.sub)
             }
             HirKind::Empty => false,
             HirKind::Literal(_literal) => false,
